@@ -3,18 +3,62 @@ import collections, json, os
 from mirsym import load
 from vlib import sym, native
 from props import zenc_common as zc
+from mirsym.values import *
+from mirsym.models import items_of
+from mirsym.vj import Concretizer
 
 QUICK = [True]
 
 
-def path(ex, t): return zc.run_roundtrip(ex, t, QUICK[0])
-def post(ex, t, r): return zc.post_roundtrip(ex, t, r)
+def path(ex, t):
+    mode = t.get('mode', 'zinc')
+    if mode == 'zinc': return zc.run_roundtrip(ex, t, QUICK[0])
+    v = zc.build(ex, dict(t, name=t['shape']), QUICK[0])
+    ex.side['orig'] = v
+    st = {'stage': 'encode', 'mode': mode}; ex.side['st'] = st
+    if mode == 'display':
+        # <Value as ToString>::to_string: the crate's Display impl into a String; an Err from it panics inside std
+        from mirsym.models_fmt import display_bytes
+        from mirsym.models_coll import m_to_string
+        class _Site: self_ty = 'Value'
+        r = m_to_string(ex, _Site, [Ptr(Cell(v))])
+        st['out'] = list(items_of(ex, r))
+    else:
+        from props import hayson_common as hc
+        kind, tree = hc.encode(ex, v)
+        st['enc'] = kind; st['tree'] = tree
+    st['stage'] = 'done'
+    return st
+
+
+def post(ex, t, r):
+    mode = t.get('mode', 'zinc')
+    if mode == 'zinc': return zc.post_roundtrip(ex, t, r)
+    if r.kind == 'unsupported': return {'kind': 'unsupported', 'detail': r.detail, 'where': r.where}
+    st = ex.side.get('st') or {}
+    s = {'kind': r.kind, 'detail': r.detail, 'where': r.where, 'mode': mode, 'wf': t['wf'], 'shape': t['shape']}
+    try: m = ex.model()
+    except Infeasible: return None
+    cz = Concretizer(ex, m)
+    try:
+        s['orig'] = cz.value(ex.side['orig'])
+        if r.kind == 'ok' and mode == 'display': s['out'] = cz.bytes_(VecV(list(st['out']), 'vec')).hex()
+        if r.kind == 'ok' and mode == 'hayson': s['enc'] = st['enc']
+    except Unsupported as u:
+        return {'kind': 'unsupported', 'detail': 'concretize: %s' % u, 'where': None}
+    if ex.side.get('axiomatised_floats'): s['float_axiom'] = True
+    s['native_case'] = {'api': 'display' if mode == 'display' else 'json_encode', 'v': s['orig']}
+    return s
 
 
 def run(ctx):
     QUICK[0] = ctx.quick()
     prog = load.program(ctx.repo, ctx.cache)
     T = zc.templates(ctx.quick())
+    # the same catalogue through Display (to_string) and through the Hayson Serialize impls
+    for t in zc.templates(ctx.quick()):
+        for mode in ('display', 'hayson'):
+            T.append({'name': '%s:%s' % (mode, t['name']), 'shape': t['name'], 'wf': t['wf'], 'mode': mode})
     ctx.cov['bounds'] = {'string_code_points': 2 if ctx.quick() else 3, 'collection_entries': 2, 'nesting': 2}
     S = sym.explore_templates(ctx, __import__('props.C10', fromlist=['x']), T, prog, split_depth=4, budget_s=240 if ctx.quick() else 1500)
     sym.native_check(ctx, S)
@@ -25,7 +69,25 @@ def finish(ctx, S, pid):
     ctx.cov['path_kinds'] = dict(collections.Counter(s['kind'] for s in S))
     mism = 0; validated = 0; unsup = collections.Counter()
     for s in S:
-        if s['kind'] == 'unsupported': unsup[(s.get('template', '?') + ': ' + s['detail'])[:110]] += 1; continue
+        if s['kind'] == 'unsupported': unsup[(s.get('template', '?') + ': ' + s['detail'])[:160]] += 1; continue
+        if s.get('mode') in ('display', 'hayson'):
+            n = s.get('native') or {}
+            nat_bad = 'panic' in n or 'hang' in n or 'abort' in n
+            sym_bad = s['kind'] in ('panic', 'bound')
+            if sym_bad != nat_bad: d = 'mirsym %s (%s), native %s' % (s['kind'], s.get('detail'), str(n)[:120])
+            elif not sym_bad and s['mode'] == 'display' and not s.get('float_axiom') and n.get('ok') != s.get('out'):
+                d = 'display text: mirsym %r native %r' % (bytes.fromhex(s.get('out') or ''), n.get('ok'))
+            elif not sym_bad and s['mode'] == 'hayson' and (s.get('enc') == 'ok') != ('ok' in n): d = 'hayson outcome: mirsym %s native %s' % (s.get('enc'), str(n)[:120])
+            else: d = None
+            if d is not None:
+                mism += 1
+                if mism <= int(os.environ.get('VERIF_SHOW', '5')): print('MODEL-MISMATCH template=%s orig=%s: %s' % (s['template'], json.dumps(s.get('orig'))[:200], d))
+                continue
+            validated += 1
+            if sym_bad:
+                key = '%s.encode.%s:%s:%s' % (s['mode'], 'panic' if s['kind'] == 'panic' else 'nonterm', s['shape'].rstrip('0123456789'), (s['detail'] or '')[:40])
+                ctx.report(key, '%s encoder: %s at %s for value %s' % (s['mode'], s['detail'], s.get('where'), json.dumps(s['orig'])[:300]), case=s['native_case'])
+            continue
         d = zc.compare_roundtrip(s)
         if d is not None:
             mism += 1
